@@ -35,7 +35,9 @@ def opsTreemapCodec : Handler := fun st toks =>
   match toks with
   | ["tser", d] => do
     let (_, sl) ← t? d
-    pure (st, specMark (showBytes (Treemap.serialize sl.m)) (showBytes (Spec.encode64 sl.s)))
+    match Treemap.serializeM st.dbg sl.m with
+    | some bytes => pure (st, specMark (showBytes bytes) (showBytes (Spec.encode64 sl.s)))
+    | none => pure (st, specMark "panic" (showBytes (Spec.encode64 sl.s)))
   | ["tser_size", d] => do
     let (_, sl) ← t? d
     pure (st, specMark (toString (Treemap.serializedSize sl.m)) (toString (Spec.encode64 sl.s).length))
@@ -71,9 +73,12 @@ def opsTreemapCodec : Handler := fun st toks =>
     pure (finishTDeser st i chk bytes r)
   | ["tdeser_prefix", mode, d, s, k] => do
     let chk ← parseMode mode; let i ← parseTSlot 't' d; let (_, sl) ← t? s; let k ← parseU64 k
-    let bytes := (Treemap.serialize sl.m).take k
     let total := (Spec.encode64 sl.s).length
     let specOut := if k < total then "err" else "ok rest=0 eq=true"
+    match Treemap.serializeM st.dbg sl.m with
+    | none => pure (st, specMark "panic" specOut)
+    | some all =>
+    let bytes := all.take k
     match Treemap.deserialize chk st.dbg bytes with
     | .ok (m, rest) =>
       pure (st.setT i ⟨m, if k < total then Treemap.elems m else sl.s⟩,
@@ -87,9 +92,10 @@ def opsTreemapCodec : Handler := fun st toks =>
     let cyc ← parseSched sc
     let total := Spec.encode64 sl.s
     let w : SWriter := { accRev := [], room := k, zeroMode := zero, sched := expandSched cyc (total.length + 2) }
-    let r := Treemap.serializeInto sl.m w
     let show_ (ok : Bool) (bs : List Nat) := (if ok then "ok" else "err") ++ s!" n={bs.length} sh={hex64 (fnv bs)}"
-    pure (st, specMark (show_ r.1 r.2.bytes) (show_ (decide (total.length ≤ k)) (total.take k)))
+    match Treemap.serializeIntoM st.dbg sl.m w with
+    | some r => pure (st, specMark (show_ r.1 r.2.bytes) (show_ (decide (total.length ≤ k)) (total.take k)))
+    | none => pure (st, specMark "panic" (show_ (decide (total.length ≤ k)) (total.take k)))
   | ["tserde_events", d] => do
     let (_, sl) ← t? d
     let evs := Serde.tserEvents sl.m
